@@ -72,7 +72,7 @@ def gen_instr(ctx, nm, op, shape, little, addr_size):
         elif k == 'block':
             b = shape.get('blob', 0)
             cells = ctx.bytes(v, b)
-            out += enc.uleb_enc(b, 1) + cells
+            out += enc.uleb_enc(b, shape.get('bloblen', 1 if b < 0x80 else 2)) + cells       # the length is a ULEB128: padded and multi-byte encodings
             args.append(list(cells))
     return out, name, args
 
